@@ -177,6 +177,20 @@ func c14Run(a c14Arg, ops []Op, set []int, final *Ledger) string {
 
 // c14RunWith: build the pending state, inject the fault set, commit / retry until success, judge.
 func c14RunWith(build func() (*World, error), workers int, relaxed bool, set []int, final *Ledger) string {
+	if msg := c14RunWith1(build, workers, relaxed, set, final, false); msg != "" {
+		return msg
+	}
+	if len(set) > 0 {
+		// the same fault set once more, the caller dropping the read cache after every failed attempt: what is pending
+		// (including pending deletions) must not live in the read cache alone
+		if msg := c14RunWith1(build, workers, relaxed, set, final, true); msg != "" {
+			return "with the read cache dropped after each failed attempt: " + msg
+		}
+	}
+	return ""
+}
+
+func c14RunWith1(build func() (*World, error), workers int, relaxed bool, set []int, final *Ledger, dropCache bool) string {
 	a := c14Arg{Workers: workers, Relaxed: relaxed}
 	w, err := build()
 	if err != nil {
@@ -252,6 +266,9 @@ func c14RunWith(build func() (*World, error), workers int, relaxed bool, set []i
 					return fmt.Sprintf("attempt %d: pending change to %s was replaced", attempt, id)
 				}
 			}
+		}
+		if dropCache && cerr != nil {
+			w.St.DropCache()
 		}
 		// reads return the latest values
 		ids := map[atree.SlabID]bool{}
